@@ -192,14 +192,15 @@ theorem histDelAll_get (h : Bucket HKey Hist) (b : Nat) (d : Diff) (hwf : d.WF) 
     by_cases h1 : (alook d.replaced a).isSome = true <;> by_cases h2 : (alook d.deployed a).isSome = true <;>
       simp [h1, h2, hdel_idem]
 
+/-- does the legacy `performStateDeletions` touch this key? -/
+def logDelKey (d : Diff) : HKey → Bool
+  | .storage a k => (d.storageAt a k).isSome
+  | .nonce a => (alook d.nonces a).isSome
+  | .classHash a => (alook d.replaced a).isSome
+
 /-- legacy `performStateDeletions`, pointwise -/
 theorem logsDelAll_get (h : Bucket HKey Hist) (b : Nat) (d : Diff) (hwf : d.WF) (key : HKey) :
-    lget (logsDelAll h b d) key =
-      if (match key with
-          | .storage a k => (d.storageAt a k).isSome
-          | .nonce a => (alook d.nonces a).isSome
-          | .classHash a => (alook d.replaced a).isSome) = true
-      then hdel (lget h key) b else lget h key := by
+    lget (logsDelAll h b d) key = if logDelKey d key = true then hdel (lget h key) b else lget h key := by
   unfold logsDelAll
   have hop := histDel_op b
   cases key with
@@ -209,7 +210,7 @@ theorem logsDelAll_get (h : Bucket HKey Hist) (b : Nat) (d : Diff) (hwf : d.WF) 
     rw [histFold_frame (fun h key (_ : Nat) => histDel h key b) (fun old _ => hdel old b) hop HKey.nonce _ _ _ (by intro x e; cases e)]
     rw [storageFold_get (fun h key (_ : Nat) => histDel h key b) (fun old _ => hdel old b) hop d.storage
       hwf.storNodup hwf.slotNodup h a k]
-    simp only [Diff.storageAt, ocases_isSome]
+    simp only [logDelKey, Diff.storageAt, ocases_isSome]
     rfl
   | nonce a =>
     simp only
@@ -217,13 +218,15 @@ theorem logsDelAll_get (h : Bucket HKey Hist) (b : Nat) (d : Diff) (hwf : d.WF) 
     rw [histFold_get (fun h key (_ : Nat) => histDel h key b) (fun old _ => hdel old b) hop HKey.nonce (by intro x y e; cases e; rfl)
       d.nonces hwf.nonceNodup]
     rw [storageFold_frame (fun h key (_ : Nat) => histDel h key b) (fun old _ => hdel old b) hop d.storage h _ (by intro a k e; cases e)]
-    simp only [ocases_isSome]
+    simp only [logDelKey, ocases_isSome]
+    rfl
   | classHash a =>
     simp only
     rw [histFold_get (fun h key (_ : Nat) => histDel h key b) (fun old _ => hdel old b) hop HKey.classHash (by intro x y e; cases e; rfl)
       d.replaced hwf.repNodup]
     rw [histFold_frame (fun h key (_ : Nat) => histDel h key b) (fun old _ => hdel old b) hop HKey.nonce _ _ _ (by intro x e; cases e)]
     rw [storageFold_frame (fun h key (_ : Nat) => histDel h key b) (fun old _ => hdel old b) hop d.storage h _ (by intro a k e; cases e)]
-    simp only [ocases_isSome]
+    simp only [logDelKey, ocases_isSome]
+    rfl
 
 end Juno.C03
